@@ -118,6 +118,14 @@ func runC14(tier string, _ []string) int {
 			if r.Chance(0.3) {
 				cfg.Dates = append(cfg.Dates, "2031-01-01")
 			}
+			if r.Chance(0.4) {
+				// days around another anchor (another year), listed in no particular order
+				other := anchors[r.Intn(len(anchors))]
+				for k := 0; k < 1+r.Intn(3); k++ {
+					cfg.Dates = append(cfg.Dates, other.AddDate(0, 0, r.Intn(9)-1).Format("2006-01-02"))
+				}
+				r.Shuffle(len(cfg.Dates), func(a, b int) { cfg.Dates[a], cfg.Dates[b] = cfg.Dates[b], cfg.Dates[a] })
+			}
 		}
 		kind := "normal"
 		if cfg.eMin == cfg.sMin {
@@ -131,7 +139,7 @@ func runC14(tier string, _ []string) int {
 			want := refActive(cfg, t)
 			for zi, z := range zones {
 				tt := t.In(z)
-				got, err := client.VerifScheduleActive(cfg.Start, cfg.End, cfg.Weekdays, cfg.Dates, tt)
+				got, err := client.VerifScheduleActive(cfg.Start, cfg.End, append([]time.Weekday{}, cfg.Weekdays...), append([]string{}, cfg.Dates...), tt)
 				atomic.AddInt64(&evals, 1)
 				if err != nil {
 					c.Violate("schedule:error", "activeForTime returned an error for a well-formed config: "+err.Error(), map[string]any{"cfg": cfg, "t": tt.Format(time.RFC3339Nano)})
@@ -180,7 +188,14 @@ func runC14(tier string, _ []string) int {
 				}
 				ts = append(ts, t.In(zones[r.Intn(len(zones))]))
 			}
-			got, errs := client.VerifScheduleActiveSeq(cfg.Start, cfg.End, cfg.Weekdays, cfg.Dates, ts)
+			// the schedule gets its own copies of the lists (the reference model must not see what the
+			// code under test does to them), and they must come back as they went in
+			wdIn, datesIn := append([]time.Weekday{}, cfg.Weekdays...), append([]string{}, cfg.Dates...)
+			got, errs := client.VerifScheduleActiveSeq(cfg.Start, cfg.End, wdIn, datesIn, ts)
+			if fmt.Sprint(wdIn) != fmt.Sprint(cfg.Weekdays) || fmt.Sprint(datesIn) != fmt.Sprint(cfg.Dates) {
+				c.Violate("schedule:configuration-changed-by-evaluation", fmt.Sprintf("evaluating the schedule rewrote its filter lists: dates %v -> %v, weekdays %v -> %v", cfg.Dates, datesIn, cfg.Weekdays, wdIn), map[string]any{"cfg": cfg})
+				ok = false
+			}
 			atomic.AddInt64(&evals, int64(len(ts)))
 			for q, t := range ts {
 				if errs[q] != nil {
